@@ -58,7 +58,6 @@ Definition api (ask : string -> list val -> val) : list api_entry :=
       | Some es => rmap (fun p => VB (SubstratePath.to_str p)) (mapM SubstratePath.make_elem es)
       | None => bad_call end | _ => bad_call end);
   ("sub_chain_code", fun a => match a with [VB b] => rb (SubstratePath.chain_code blake b) | _ => bad_call end);
-  ("sub_chain_code_current", fun a => match a with [VB b] => rb (SubstratePath.chain_code_current blake b) | _ => bad_call end);
   ("sub_derive", fun a => match a with [VL sk; VB pk; VB s] =>
       let k := SubstratePath.mk_skey (match sk with [VB x] => Some x | _ => None end) pk [] in
       rmap vskey (SubstratePath.derive_path_str blake hard soft softpub k s) | _ => bad_call end);
@@ -71,7 +70,6 @@ Definition api (ask : string -> list val -> val) : list api_entry :=
               VBool (PyText.cp_isspace c); VBool (PyText.cp_int_space c);
               match PyText.cp_digit_val c with Some d => VL [VN d] | None => VL [] end]) | _ => bad_call end);
   ("bip32_parse", fun a => match a with [VB s] => rmap vpath (Bip32Path.parse s) | _ => bad_call end);
-  ("bip32_parse_current", fun a => match a with [VB s] => rmap vpath (Bip32Path.parse_current s) | _ => bad_call end);
   ("bip32_to_str", fun a => match a with [VL l; VN ab] =>
       match vals_N l with
       | Some idx => rmap (fun p => VB (Bip32Path.to_str p))
